@@ -3,7 +3,7 @@ from registry_common import COMMON_ASSUME
 ENTRY = dict(
     title="Stream reassembly is fragmentation-independent; skipped frames never desync it",
     design_ref="DESIGN.md section 6 / C04",
-    prop_modules=["C04", "TieFrame", "TieReader"],
+    prop_modules=["C04", "C04Chunks", "C04Sched", "TieFrame", "TieReader", "TieChunks"],
     technique="Lean 4 theorems by induction over frame sequences (reader model) + correspondence under 5-6 chunkings incl. lazily fed chunks",
     level_text=(
         "Proof: `C04.one_frame` (any well-formed frame, any recipient/sender/kind/payload/last byte, followed by anything, is consumed exactly "
@@ -12,13 +12,13 @@ ENTRY = dict(
         "`C04.prefix_determinism` (a non-EOF outcome is decided by the consumed bytes; later bytes untouched). Tie: generated frame sequences "
         "(foreign frames with checksum byte 0x68, delimiter-salted payloads) through the real FrameReader on a real StreamReader under 5-6 "
         "chunkings, compared with the statement-derived expectation and with the model."),
-    level_note="Byte semantics proved; independence from chunking/arrival timing rests on asyncio.StreamReader (exercised with lazily fed chunks, not modelled).",
+    level_note="Byte semantics proved; independence from chunking/arrival timing proved for the resumable reader machine given the buffer contract of StreamReader.read(1)/readexactly(n) (that contract is trusted and exercised at every suspension).",
     clauses={
         "every frame sequence classified once and in order": "theorem (C04.stream, C04.delivered_exactly)",
         "skipped/rejected frames never desync": "theorem (C04.one_frame consumes exactly the frame)",
         "protocol level: the deliverable frames reach the device each once and in order for every chunking / arrival timing, bursts of any length":
             "theorem (C09Producer.wellformed_sequence_enqueued, burst_enqueued, burst_all_queued; C09.delivered_exactly_once) + correspondence (harness/c09_wire.py: real AsyncProtocol, 5 chunkings x held consumers x bursts of 300..1200 frames, delivery order at the device)",
-        "independence from chunking and arrival timing": "theorem for the byte content (C04.prefix_determinism) + correspondence (StreamReader trusted)",
+        "independence from chunking and arrival timing": "theorem: C04.chunk_independent (readChunks eager cs = readAll cs.flatten for ALL chunk lists and arrival schedules, over the resumable reader machine of Model/ReaderChunks that is suspended at its three await points), C04.call_chunk_independent, any_two_chunkings, resumption, stream_chunked; for ARBITRARY interleavings of arrivals and reader runs (small-step system Model/ReaderSched): C04.every_interleaving_prefix (at every moment the completed calls are a prefix of readAll on the concatenation), every_interleaving_complete, interleavings_agree, a_fair_schedule_reaches_the_end, stream_every_interleaving; C04.prefix_determinism for the byte content. Trusted is only the contract of StreamReader.read(1) / readexactly(n) on a buffer (stated in Model/ReaderChunks) + correspondence (implementation observed at every suspension under random arrival schedules against that machine)",
     },
     assumptions=COMMON_ASSUME,
 )
